@@ -608,3 +608,118 @@ def _subterms(t):
         for x in t:
             if isinstance(x, tuple):
                 yield from _subterms(x)
+
+
+@rule("MAPTAB", ["C01", "C02", "C06", "C04"])
+def maptab(ctx, pid):
+    """node -> (db key, db value): blank -> (b'', None); RLP shorter than 32 bytes -> (the node itself, None);
+    otherwise (keccak(rlp), rlp).  The LRU-cached detour taken by pruning tries is transparent: it goes through
+    tuplify / listify, which are inverse conversions (list <-> tuple at every nesting level), and ends in the same
+    mapping function."""
+    eng = S(ctx)
+    f = H(ctx, "_create_node_to_db_mapping")
+    n_ = ("p", f.params[1])
+    rlp_ = None
+    rows = {}
+    probs = []
+    for p, st in pq.states(ctx, f):
+        if p.exit[0] != "return":
+            continue
+        rels, truth = _log(st)
+        blank = truth.get(("call", NODES + "is_blank_node", (n_,), ()))
+        if blank is None:
+            for op, l, r in rels:
+                if (l, r) in ((n_, BLANK), (BLANK, n_)) and op in ("==", "!="):
+                    blank = op == "=="
+        if blank is None:
+            probs.append("a mapping is returned without testing for the blank node")
+            continue
+        if blank:
+            rows["blank"] = st.ret
+            continue
+        # the length test is evaluated for encoded lengths 30..34 (so `< 32`, `<= 31`, `32 > len` are one test)
+        taken = set()
+        found = False
+        for L in (30, 31, 32, 33, 34):
+            okL = True
+            for op, l, r in rels:
+                vals = []
+                for x in (l, r):
+                    if x[0] == "len" and x[1][0] == "call" and "encode" in x[1][1] and x[1][2] == (n_,):
+                        rlp_ = x[1]
+                        found = True
+                        vals.append(L)
+                    elif x[0] == "c" and isinstance(x[1], int):
+                        vals.append(x[1])
+                    else:
+                        vals.append(None)
+                if None in vals or not (l[0] == "len" or r[0] == "len"):
+                    continue
+                a, b = vals
+                if not {"==": a == b, "!=": a != b, ">": a > b, ">=": a >= b}.get(op, True):
+                    okL = False
+            if okL:
+                taken.add(L)
+        if not found:
+            probs.append("a non-blank node is mapped without comparing the length of its RLP with 32")
+        elif taken == {30, 31}:
+            rows["short"] = st.ret
+        elif taken == {32, 33, 34}:
+            rows["long"] = st.ret
+        else:
+            probs.append("a mapping arm is taken for encoded lengths %s; the arms are exactly < 32 (embedded) and >= 32 (hashed: a 32-byte encoding is reference-sized)" % sorted(taken))
+    c = "mapping-table:HexaryTrie._create_node_to_db_mapping"
+    if not probs and rlp_ is not None:
+        kec = [t for t in _subterms(rows.get("long", ())) if t[0] == "call" and "keccak" in t[1]]
+        want = {"blank": ("tuple", (BLANK, C(None))), "short": ("tuple", (n_, C(None))), "long": ("tuple", (kec[0] if kec else None, rlp_))}
+        ok_k = bool(kec) and kec[0][2] == (rlp_,)
+        for k_, w in want.items():
+            if rows.get(k_) != w or (k_ == "long" and not ok_k):
+                probs.append("%s node maps to `%s`, expected `%s`" % (k_, tstr(rows.get(k_))[:60] if rows.get(k_) else None, tstr(w)[:60] if w[1][0] else "(keccak(rlp), rlp)"))
+    if probs:
+        ctx.bad(c, f.loc(), probs[0], witness={"problems": probs})
+    elif set(rows) != {"blank", "short", "long"}:
+        ctx.unsure(c, f.loc(), "mapping cases found: %s" % sorted(rows))
+    else:
+        ctx.ok(c, f.loc(), "blank -> (b'', None); len(rlp) < 32 -> (node, None); else (keccak(rlp), rlp)")
+    # ---- transparency of the cached detour
+    g = H(ctx, "_node_to_db_mapping")
+    h = H(ctx, "_cached_create_node_to_db_mapping")
+    gn, hn = ("p", g.params[1]), ("p", h.params[1])
+    direct = lambda x: ("call", HEX + "._create_node_to_db_mapping", (SELF, x), ())  # noqa: E731
+    tup = ("call", "trie.hexary:tuplify", (gn,), ())
+    lst = ("call", "trie.hexary:listify", (hn,), ())
+    okg = {st.ret for p, st in pq.states(ctx, g) if p.exit[0] == "return"} <= {direct(gn), ("call", HEX + "._cached_create_node_to_db_mapping", (SELF, tup), ())}
+    for p, st in pq.states(ctx, g):
+        if p.exit[0] == "return" and st.ret != direct(gn):
+            rels, truth = _log(st)
+            if truth.get(("call", "ext:isinstance", (gn, ("g", "list")), ())) is not True:
+                okg = False  # only a list has a tuple form: a blank node (bytes) must take the direct mapping
+    rows_h = set()
+    for p, st in pq.states(ctx, h):
+        if p.exit[0] == "return":
+            rels, truth = _log(st)
+            rows_h.add((truth.get(("call", "ext:isinstance", (hn, ("g", "tuple")), ())), st.ret))
+    okh = rows_h == {(True, direct(lst)), (False, direct(hn))}
+    duals = []
+    for name, frm, to in (("tuplify", "list", "tuple"), ("listify", "tuple", "list")):
+        d = ctx.P.func("trie.hexary:" + name)
+        deco = [x for x in d.decos if x.endswith("to_" + to)]
+        rows_d = set()
+        for p in ctx.X.paths(d, 1):
+            pol = None
+            ys = []
+            for ev in p.events:
+                if ev.k == "assume" and isinstance(ev.node, ast.Call) and ast.unparse(ev.node.func) == "isinstance" and len(ev.node.args) == 2:
+                    pol = (ast.unparse(ev.node.args[1]), ev.a)
+                if ev.k == "yield" and isinstance(ev.node, ast.Yield) and ev.node.value is not None:
+                    v = ev.node.value
+                    ys.append("recurse" if isinstance(v, ast.Call) and ast.unparse(v.func) == name else ("same" if isinstance(v, ast.Name) else "?"))
+            if pol is not None and ys:
+                rows_d.add((pol, ys[-1]))
+        duals.append(bool(deco) and rows_d == {((frm, True), "recurse"), ((frm, False), "same")})
+    c = "cache-transparent:HexaryTrie._node_to_db_mapping"
+    if okg and okh and all(duals):
+        ctx.ok(c, g.loc(), "direct or cached(tuplify(node)); cached = create(listify(t)) for tuples; tuplify / listify convert every nesting level and are each other's inverse")
+    else:
+        ctx.bad(c, g.loc(), "the cached mapping is not the plain mapping after a tuple round-trip (dispatch ok: %s, cached body ok: %s, tuplify / listify ok: %s)" % (okg, okh, duals))
